@@ -32,7 +32,7 @@ from vcore import Failure, REPO
 
 PROP = "C20"
 RULE = (
-    "bounded-exhaustive: settings sheets with form_id / id_string headers in both orders x each/both/neither cell filled; begin group/repeat x 6 label shapes x 7 appearances (field-list / table-list combinations) x 3 placements; every 3-choice list over 2 names x labeled/unlabeled x duplicates allowed or not; every subset of 3 translatable columns x {default, 2 languages} on the survey sheet and on the "
+    "bounded-exhaustive: or_other spellings x language on survey only / choices only / both / none x column; settings sheets with form_id / id_string headers in both orders x each/both/neither cell filled; begin group/repeat x 6 label shapes x 7 appearances (field-list / table-list combinations) x 3 placements; every 3-choice list over 2 names x labeled/unlabeled x duplicates allowed or not; every subset of 3 translatable columns x {default, 2 languages} on the survey sheet and on the "
     "choices sheet (512 each per column triple, converted), every string within edit radius 1 of each supported sheet "
     "name over a 31-letter alphabet, each also in upper / title / mixed case; the similar-names hint of the missing-sheet errors (survey, choices, external_choices) (+ samples of radius 2/3, case variants, underscore prefixes), language labels x "
     "bracketed-code shapes; random: generated forms with row-level triggers (disabled, comment rows, deprecated types, "
@@ -928,6 +928,30 @@ def error_hint_cases(ctx):
             ctx.record({"hint": [key, names]}, True)
 
 
+def or_other_enum(ctx):
+    """or_other x which sheet carries a language (none / survey only / choices only / both) x which translatable
+    column carries it (label, hint, media; on the choices sheet label, media) x or_other spelling: the or_other +
+    translations warning is due iff an or_other select is present and *either* sheet uses a language."""
+    sv_cols = {"none": [], "label": ["label::French (fr)"], "hint": ["hint::French (fr)"], "image": ["image::French (fr)"]}
+    ch_cols = {"none": [], "label": ["label::French (fr)"], "audio": ["audio::French (fr)"]}
+    for other in (" or_other", " or other", " or specify other", ""):
+        for sk, sc in sv_cols.items():
+            for ck, cc in ch_cols.items():
+                q = {"type": "select_one l1" + other, "name": "q", "label": "Q"}
+                t = {"type": "text", "name": "t", "label": "T"}
+                for c in sc:
+                    t[c] = "x.png" if c.startswith("image") else "fr text"
+                    if c.startswith("label"):
+                        q[c] = "Q fr"
+                c1 = {"list_name": "l1", "name": "a", "label": "A"}
+                c2 = {"list_name": "l1", "name": "b", "label": "B"}
+                for c in cc:
+                    c1[c] = c2[c] = "a.mp3" if c.startswith("audio") else "fr"
+                case = {"survey": [q, t], "choices": [c1, c2]}
+                ctx.count("or_other_enum:cases")
+                workbook_case(ctx, case, "or_other_enum", must_convert="or_other select with translations on one or both sheets")
+
+
 def settings_id_enum(ctx):
     """The duplicate form_id / id_string headers: which of the two headers are present x header order x which of
     the two cells are filled x other settings cells.  The warning is about *headers*; a form whose twin without the
@@ -1002,6 +1026,7 @@ def explore(ctx, factor, bs):
     choice_list_enum(ctx)
     section_label_enum(ctx)
     settings_id_enum(ctx)
+    or_other_enum(ctx)
     error_hint_cases(ctx)
     lev_cases(ctx, ctx.pick(3000, 40000) * factor)
     misspell_cases(ctx, factor)
